@@ -703,6 +703,7 @@ impl World {
     /// assert_eq!(*world.get::<&bool>(e).unwrap(), true);
     /// ```
     pub fn remove<T: Bundle + 'static>(&mut self, entity: Entity) -> Result<T, ComponentError> {
+        assert_distinct_types::<T>();
         self.flush();
 
         // Gather current metadata
@@ -784,6 +785,7 @@ impl World {
         entity: Entity,
         components: T,
     ) -> Result<S, ComponentError> {
+        assert_distinct_types::<S>();
         self.flush();
 
         // Gather current metadata
@@ -947,6 +949,17 @@ impl<'a> IntoIterator for &'a World {
     fn into_iter(self) -> Iter<'a> {
         self.iter()
     }
+}
+
+/// Moving a bundle out of an entity reads each named component once, so no type may repeat
+fn assert_distinct_types<T: Bundle>() {
+    T::with_static_ids(|ids| {
+        // Sorted, so repeated types are adjacent
+        assert!(
+            ids.windows(2).all(|x| x[0] != x[1]),
+            "attempted to remove duplicate components; each type must occur at most once!"
+        );
+    });
 }
 
 fn index2<T>(x: &mut [T], i: usize, j: usize) -> (&mut T, &mut T) {
